@@ -4,15 +4,33 @@ import json, subprocess
 props=[json.loads(l) for l in open('/verif/properties.jsonl')]
 ids=[p["id"] for p in props]
 CLAIMS = {
+ "C01": ("Contracts on ResolveExecutable, resolve, resolveFieldSels, resolveSels, resolveField, resolveList, resolveInline, resolveFragRef are discharged for all inputs: operation choice (unknown or ambiguous name runs no resolver), one response key per field (alias or name) and nothing else written to the result map, __typename, list results as long as the source list, null/depth cut-off.",
+         "user resolvers are assumed deterministic and not to write ggql-owned memory; parser-established data-structure invariants and pure accessors are listed in evidence.assumptions; whole-response equality with a reference semantics (Exec) is not proved",
+         "4 C01"),
+ "C03": ("Panic-freedom obligations (nil dereference, index, slice bounds, type assertion, nil-map store, division, uncomparable interface comparison) and loop termination measures are discharged for every function currently under contract (resolve walk, coercions, error helpers).",
+         "scanners (parser.go, sdlparser.go, exeparser.go), printers and reflect-dominated helpers are not yet under contract: the claim covers the listed functions only; reflect preconditions are a separate unclaimed class",
+         "4 C03"),
  "C04": ("Every built-in scalar CoerceIn is proved, for every dynamic Go type of the input, to return either an error or a value of the declared Go representation that denotes the same number/string/boolean (exact integer arithmetic, IEEE-754 floats).",
-         "custom scalars are assumed to meet the InCoercer contract; strconv/time parsing results are unconstrained apart from bit-size; see evidence.assumptions",
+         "custom scalars are assumed to meet the InCoercer contract; strconv/time parsing results are unconstrained apart from bit-size; list/input-object/variable plumbing not yet under contract",
          "4 C04"),
- "C05": ("Every built-in scalar CoerceOut is proved, per dynamic type of the resolver value, to return a value of the scalar's JSON representation with the same value (or its truncation for float->Int), and nil whenever it returns an error.",
+ "C05": ("Every built-in scalar CoerceOut is proved, per dynamic type of the resolver value, to return a value of the scalar's JSON representation with the same value (or its truncation for float->Int), and nil whenever it returns an error; resolve() returns nil for a leaf whose coercion failed.",
          "fractional float -> Int truncation is a recorded known finding (pinned by the suite); custom scalars assumed to meet the OutCoercer contract",
          "4 C05"),
- "C09": ("skipSel is proved, for directive lists of any length and any variable map, to compute exactly the inclusion formula of the statement (loop invariant over a prefix spec function; termination by a decreasing measure).",
-         "Type.Name and Selection.Directives are treated as pure accessors; directive uses produced by the parser are non-nil with a non-nil Directive (precondition)",
+ "C06": ("Error.in prefixes exactly one segment; Errors.in prefixes every listed error exactly once (lists are proved duplicate-free through an allocation-order predicate with separately proved lemmas); resolveList prefixes the element index in every branch that resolves elements; every function of the resolve walk returns owned, fresh error lists.",
+         "fmt.Errorf results are assumed to carry no *Error in their chain; errors.As is modelled as a deterministic chain lookup",
+         "4 C06"),
+ "C08": ("resolveInline/resolveFragRef: a fragment whose condition is a different type than the container contributes nothing (no key written, no resolver run, no error).",
+         "only the not-applicable direction and the identity case are decided by the current contracts; conditions on interfaces/unions of the concrete type are not yet covered",
+         "4 C08"),
+ "C09": ("skipSel computes exactly the inclusion formula of the statement for directive lists of any length (loop invariant over a prefix spec function); resolveSels and ResolveExecutable call resolveField/resolveInline/resolveFragRef only for selections that are not skipped (call-site preconditions).",
+         "Type.Name and Selection.Directives are treated as pure accessors; parser-established shape invariants listed in evidence",
          "4 C09"),
+ "C10": ("getFieldDef looks the field up in the right table for each container kind; resolveField reports an error and runs no resolver for an undefined field; sortArgs reports every undeclared argument of an object field.",
+         "non-object containers in sortArgs are recorded known findings; directive/type-condition checks in the validators not yet under contract",
+         "4 C10"),
+ "C11": ("Frame conditions (assigns clauses) of the functions of the resolve walk are checked store by store: apart from freshly allocated objects, the result map of the call and the declared caches, nothing is written.",
+         "Field.ConType/Field.Args writes are declared at array granularity; the sortArgs write to Field.Args is a recorded known finding; the relational sentence (same response as a fresh parse) is a consequence of the frame, not proved as a two-run relation",
+         "4 C11"),
 }
 NA = {
  "C16": "relational over orderings/partitions of whole loads: a function contract speaks about one call, and deriving the relation needs a functional grammar specification of the whole single-pass SDL parser (DESIGN.md section 4, C16)",
